@@ -5,7 +5,7 @@
 -/
 import SV.Misc.TimeCacheProofs
 import SV.Misc.TimeCacheMore
-import SV.GenProofs
+import SV.GenProofs.TimeCache
 namespace SV.Props.C18
 open SV SV.TimeCache
 
